@@ -1,5 +1,6 @@
 import SluVerif.Props.C03Global
 import SluVerif.Proofs.RelaxSnode
+import SluVerif.Proofs.PanelWidth
 #print axioms Slu.dequeue_spec
 #print axioms Slu.pickPanel_spec
 #print axioms Slu.takePanel_spec
@@ -31,3 +32,6 @@ import SluVerif.Proofs.RelaxSnode
 #print axioms Slu.nextLeaf_stops
 #print axioms Slu.relaxSnode_fuel_irrelevant
 #print axioms Slu.relaxSnode_top_maximal
+#print axioms Slu.pw0_bounds
+#print axioms Slu.panelWidth_bounds
+#print axioms Slu.panelWidth_no_branch
